@@ -198,7 +198,7 @@ def plan(tier, seed):
     for x in b:
         key = x["gen"] if x["gen"] != "multi" else x["parts"][-1]["gen"]
         groups.setdefault(key.split("_")[0], []).append(x)
-    cap = 80 if quick else 700
+    cap = 150 if quick else 700
     for x in b:
         for part in (x["parts"] if x["gen"] == "multi" else [x]):
             part["time_cap"] = cap
@@ -693,7 +693,7 @@ W1_CTOR_CASES = (
 )
 # risky specs a second time with "poke": when the constructor accepts an unusable argument the first
 # case records that, the second shows what the object then does to memory (it may kill the process)
-W1_CTOR_CASES = W1_CTOR_CASES + [dict(c, poke=1) for c in W1_CTOR_CASES if c.get("capacity", 0) < 0 or c.get("capacity", 0) >= (1 << 40)]
+W1_CTOR_CASES = W1_CTOR_CASES + [dict(c, poke=1) for c in W1_CTOR_CASES if c.get("capacity", 0) < 0]
 
 
 def gen_w1_ctor(batch, res, sb, watch, use_fork):
@@ -779,7 +779,8 @@ def gen_w1_ctor(batch, res, sb, watch, use_fork):
         return None
 
     sb.max_reforks = len(todo) + 5
-    sb.run(todo, fn, lambda item: _case_of(batch, item[0]), use_fork=use_fork, group_of=lambda item: "ctor:" + _specdesc(item[1]).split("=")[-1][:5])
+    sb.run(todo, fn, lambda item: _case_of(batch, item[0]), use_fork=use_fork, group_of=lambda item: "ctor:" + _specdesc(item[1]).split("=")[-1][:5],
+           risky_of=lambda item: bool(item[1].get("poke")) or item[1].get("capacity", 0) >= (1 << 32))
 
 
 def _specdesc(spec):
